@@ -103,6 +103,9 @@ func c10(r *Report) propMeta {
 	r.Rule("C10.R7", "a committee never contains a member twice (it could not complete)")
 	r.ShuffleShape("partial-fisher-yates", tK+"GetRandomMembers")
 
+	r.Rule("C10.R8", "E19 constructors of x/tss/types store their inputs unchanged")
+	r.CtorFaithful("ctor", faithfulCtors["tss"]...)
+
 	return propMeta{
 		Decided: []string{
 			"R1 Signing.Status: SUCCESS only in AggregatePartialSignatures, FALLEN only in HandleFailedSigning, WAITING only in InitiateNewSigningRound / constructor; CurrentAttempt only ever incremented by one; the lifecycle functions are called only from HandleSigningEndBlock (and RequestSigning for the first round)",
@@ -112,6 +115,7 @@ func c10(r *Report) propMeta {
 			"R5 OnSigningTimeout deactivates only members that exist and are active, in the signing's group, through DeactivateMember",
 			"R6 every KV-store Get/Has/Delete of x/tss uses a key builder of x/tss/types that some Set of the module also uses (a probe of an iteration prefix or of a sibling family is always-empty state)",
 			"R7 the signer selection is a partial Fisher-Yates over positions of the eligible list (same rule as C09.R3): a put-back slip yields committees with one member twice, whose attempt can never reach the full partial-signature count (seed C10-5)",
+			"R8 the literal constructors of x/tss/types (frozen list) store each parameter or a constant unchanged in the record they build: what a handler validated is what is stored",
 		},
 		Undecided: []string{"termination itself and 'timed out exactly then' (liveness over schedules)", "that InitiateNewSigningRound is only ever reached for WAITING signings (history invariant)"},
 		Assume:    []string{"VTA resolves the callback router to bandtss TSSCallback", "CacheContext isolation"},
